@@ -107,7 +107,8 @@ class RAMResults(BaseResults):
     def _generate_key(self, strategy_name, dataset_name, cv_fold, train_or_test):
         """Function to get paths for files, this basically encapsulate the
         storage logic of the class"""
-        return f"{strategy_name}_{dataset_name}_{train_or_test}_{str(cv_fold)}"
+        # a tuple key cannot collide, unlike a "_"-joined string ("a_b" + "c" vs "a" + "b_c")
+        return (strategy_name, dataset_name, train_or_test, str(cv_fold))
 
 
 class HDDResults(HDDBaseResults):
